@@ -1,7 +1,7 @@
 """Rules shared by several properties (necessary conditions stated once)."""
 import ast
 
-from ..index import walk_no_nested
+from ..index import walk_no_nested, dotted, src
 from ..util import one_shot_reuse
 
 
@@ -84,6 +84,53 @@ MEMO_CLASSES = {
 }
 
 
+FILE_OPENERS = {'open', 'gzip.open', 'bz2.open', 'lzma.open', 'pysam.AlignmentFile', 'AlignmentFile', 'pysam.FastaFile', 'FastaFile', 'pysam.VariantFile', 'VariantFile', 'pysam.TabixFile',
+                'pd.read_csv', 'pd.read_pickle', 'pd.read_table', 'np.load', 'np.loadtxt', 'pickle.load'}
+
+
+def _reads_file_of_param(m, fd, depth=0):
+    """(parameter, opener call) when the function - directly or through a module-level function it hands the parameter to (two levels) - opens the file a parameter names"""
+    params = {a.arg for a in fd.args.args + fd.args.kwonlyargs}
+    for c in [x for x in ast.walk(fd) if isinstance(x, ast.Call)]:
+        d = dotted(c.func) or ''
+        passed = [(i, a.id) for i, a in enumerate(c.args) if isinstance(a, ast.Name) and a.id in params] + [(k.arg, k.value.id) for k in c.keywords if isinstance(k.value, ast.Name) and k.value.id in params]
+        if not passed:
+            continue
+        if d in FILE_OPENERS:
+            return passed[0][1], f'`{src(c)[:50]}`'
+        if depth < 2 and isinstance(c.func, ast.Name) and c.func.id in m.defs and isinstance(m.defs[c.func.id][-1], ast.FunctionDef):
+            g = m.defs[c.func.id][-1]
+            gparams = [a.arg for a in g.args.args]
+            for pos, name in passed:
+                gp = gparams[pos] if isinstance(pos, int) and pos < len(gparams) else pos if isinstance(pos, str) else None
+                if gp is None:
+                    continue
+                sub = _reads_file_of_param_named(m, g, gp, depth + 1)
+                if sub is not None:
+                    return name, f'through {g.name}: {sub}'
+    return None
+
+
+def _reads_file_of_param_named(m, g, gp, depth):
+    for c in [x for x in ast.walk(g) if isinstance(x, ast.Call)]:
+        d = dotted(c.func) or ''
+        uses = any(isinstance(a, ast.Name) and a.id == gp for a in c.args) or any(isinstance(k.value, ast.Name) and k.value.id == gp for k in c.keywords)
+        if not uses:
+            continue
+        if d in FILE_OPENERS or (isinstance(c.func, ast.Name) and c.func.id in ('opener',)):
+            return f'`{src(c)[:50]}`'
+        if depth < 2 and isinstance(c.func, ast.Name) and c.func.id in m.defs and isinstance(m.defs[c.func.id][-1], ast.FunctionDef):
+            h = m.defs[c.func.id][-1]
+            hp = [a.arg for a in h.args.args]
+            for i, a in enumerate(c.args):
+                if isinstance(a, ast.Name) and a.id == gp and i < len(hp):
+                    sub = _reads_file_of_param_named(m, h, hp[i], depth + 1)
+                    if sub is not None:
+                        return f'{h.name}: {sub}'
+    return None
+
+
+
 def memoised_functions(ctx, rule_id, prop, files, what):
     """S3: a memoising decorator (functools.lru_cache / cache) keeps the RESULT OBJECT of the first call.
     (a) on a generator function that object is a generator: the second call with equal arguments gets the exhausted generator back;
@@ -102,6 +149,13 @@ def memoised_functions(ctx, rule_id, prop, files, what):
                 ctx.emit(rule_id, False, rel, fd, f'{fd.name} is a generator function under a memoising decorator: the cache holds the generator object of the first call, every later '
                          f'call with equal arguments receives that same, already exhausted generator and iterates over nothing', key=f'memoised-generator:{fd.name}',
                          what=f'{what}: the second call of {fd.name} with the same arguments yields nothing')
+            rd = _reads_file_of_param(m, fd)
+            if rd is not None:
+                bad += 1
+                ctx.emit(rule_id, False, rel, fd, f'{fd.name} is memoised on its arguments but reads the file named by `{rd[0]}` ({rd[1]}): the cache is keyed by the path, not by what the file '
+                         f'holds - after the file was rewritten the old content is still answered', key=f'memoised-file-reader:{fd.name}',
+                         witness={'history': [f'{fd.name}(path)', 'the file at path is rewritten', f'{fd.name}(path) -> result of the first call']},
+                         what=f'{what}: {fd.name} answers from a file content that is no longer there')
     for rel, cls in MEMO_CLASSES.get(prop, []):
         res = analyse_class(ctx, rel, cls, rule_id)
         if res is None:
